@@ -149,7 +149,7 @@ def run(ctx: Ctx) -> Outcome:
         tlc.run_tlc("Lifecycle", cfg, workers=1, timeout=3000, on_json=lambda tag, d: cases.append(d), want_prints=False),
         "Lifecycle enumeration",
     )
-    # deeper forests over a smaller alphabet (4 nodes quick / 5 thorough): shapes where the deleted resource hangs under an
+    # deeper forests over a smaller alphabet (4 nodes; thorough: full status set on every node): shapes where the deleted resource hangs under an
     # intermediate node, chains of depth 4, several trees in one scenario
     deep_cfg = "Lifecycle_quick4.cfg" if ctx.quick else "Lifecycle_thorough5.cfg"
     seen_keys = {json.dumps(c, sort_keys=True) for c in cases} if not ctx.quick else set()
@@ -158,7 +158,7 @@ def run(ctx: Ctx) -> Outcome:
         tlc.run_tlc("Lifecycle", deep_cfg, workers=1, timeout=3000, on_json=lambda tag, d: deep.append(d), want_prints=False),
         "Lifecycle deep enumeration",
     )
-    n3 = 3 if ctx.quick else 4
+    n3 = 3
     cases += [c for c in deep if len(c["tree"]) > n3]
     res.distinct += res2.distinct
     res.generated += res2.generated
